@@ -59,6 +59,7 @@ def extra(ctx, state):
 SPEC = {
     "prop": "c09",
     "mod": "ParolModel.Props.C09",
+    "more_mods": ["ParolModel.Props.C09b"],
     "files": FILES,
     "oracle_req": oracle_req,
     "nontrivial": nontrivial,
@@ -77,7 +78,7 @@ SPEC = {
 
 CLAIM = {
     "category": "proof",
-    "text": "Lean theorems about the model `canon` (a step-by-step mirror of transform_productions: extract_options, then the loop separate_alternatives ; eliminate_repetitions (LL and LALR variants) ; eliminate_options ; eliminate_groups, generate_name with its numeric-suffix rule, finalize): every step preserves YieldE for all factor strings that do not mention the new helper (step_preserves_lang family), canon_preserves_lang (for ALL EBNF grammars and both grammar types, whenever the start symbol is defined or used), canon_generate_name_not_mem, generate_name_total (the |exclusions|+1 candidates always contain a free name), helper_fresh. Termination of the transformation loops is not proved (the model takes fuel; `fuel-exhausted` was never observed). Tied to the code by exact differential runs through the real PAR front end; every implementation reply is also judged by the oracle (member on all strings ≤ n, helper-name clash detector).",
+    "text": "Lean theorems about the model `canon` (a step-by-step mirror of transform_productions: extract_options, then the loop separate_alternatives ; eliminate_repetitions (LL and LALR variants) ; eliminate_options ; eliminate_groups, generate_name with its numeric-suffix rule, finalize): every step preserves YieldE for all factor strings that do not mention the new helper (step_preserves_lang family), canon_preserves_lang (for ALL EBNF grammars and both grammar types, whenever the start symbol is defined or used), canon_generate_name_not_mem, generate_name_total (the |exclusions|+1 candidates always contain a free name), helper_fresh. Termination (Props/C09b): canon_terminates_bound — with fuel > canonMeasure E (3*repetitions + 2*groups + 2*optionals at all nesting levels + productions with several alternatives; every modifying pass lowers it) the run never ends in the fuel or panic outcome; canon_total_accepted — on input the front end accepts it returns a grammar; the driver fuel 4*size+10 suffices. Tied to the code by exact differential runs through the real PAR front end; every implementation reply is also judged by the oracle (member on all strings ≤ n, helper-name clash detector).",
     "design_ref": "DESIGN.md §6 C09",
     "note": "Trusted: Lean kernel, faithfulness of the hand-written model as observed by the differential run, harness (PAR rendering of the encoded grammar) and orchestrator. Finding F23 (start symbol missing from variable_names) was found here, proved as canon_start_clash_counterexample and repaired by a fix: commit; its witnesses are re-run on every check.",
     "technique": "Lean 4 proof over hand-written model + differential correspondence check",
